@@ -74,12 +74,17 @@ type WorkerOut struct {
 	Hist     map[string]int `json:"hist"`
 	Commit   []CommitCase   `json:"commit_cases"`
 	Fatal    string         `json:"fatal,omitempty"`
+	Timing   []string       `json:"timing"`
 }
 
 // CommitCase: one block whose commitTxs outcome is compared with the Lean fan-out model.
 type CommitCase struct {
-	Note    string `json:"note"`
-	Verdict string `json:"verdict"`
+	Note    string   `json:"note"`
+	Verdict string   `json:"verdict"`
+	Nins    []int    `json:"nins,omitempty"`  // inputs per transaction (coinbase = 0)
+	Bad     [][2]int `json:"bad,omitempty"`   // (tx, input) with a corrupted signature
+	Early   int      `json:"early"`           // index of the tx at which the main loop returns early, -1 none
+	Model   bool     `json:"model"`           // structural data present: compare with the Lean fan-out model
 }
 
 // ------------------------------------------------------------------------------------ recorder
@@ -316,9 +321,10 @@ func genScenario(seed uint64, thorough bool, gt uint32) (*scenario, []CommitCase
 	kinds := []string{"valid", "valid", "valid", "badsig", "valid", "dblspend", "valid", "unknown", "overspend", "valid", "badsig", "malformed", "side", "sidebad"}
 	for round := 0; round < rounds; round++ {
 		ge.refresh()
-		kind := "valid"
-		if round >= 2 {
-			kind = kinds[g.Intn(len(kinds))]
+		kind := kinds[g.Intn(len(kinds))]
+		fixed := []string{"valid", "valid", "badsig", "malformed", "side", "dblspend", "sidebad", "valid"} // corpus part: always present
+		if round < len(fixed) {
+			kind = fixed[round]
 		}
 		switch kind {
 		case "side", "sidebad":
@@ -352,7 +358,7 @@ func genScenario(seed uint64, thorough bool, gt uint32) (*scenario, []CommitCase
 			}
 			r := do(Op{Kind: "block", Raw: k.Build(spec), Note: kind + "-2 (reorg)"})
 			sc.hist["reorg:"+kind]++
-			cases = append(cases, CommitCase{Note: kind, Verdict: r.Verdict})
+			cases = append(cases, CommitCase{Note: kind, Verdict: r.Verdict, Early: -1})
 		case "malformed":
 			txs, fees, note := ge.blockTxs("valid", ntx+6, maxin)
 			raw := k.Build(chainkit.BlockSpec{Txs: txs, Fees: fees})
@@ -362,7 +368,7 @@ func genScenario(seed uint64, thorough bool, gt uint32) (*scenario, []CommitCase
 			}
 			r := do(Op{Kind: "block", Raw: raw, Note: "malformed(truncated) " + note})
 			sc.hist["block:malformed"]++
-			cases = append(cases, CommitCase{Note: "malformed", Verdict: r.Verdict})
+			cases = append(cases, CommitCase{Note: "malformed", Verdict: r.Verdict, Early: -1})
 		default:
 			txs, fees, note := ge.blockTxs(kind, ntx, maxin)
 			spec := chainkit.BlockSpec{Txs: txs, Fees: fees}
@@ -371,7 +377,19 @@ func genScenario(seed uint64, thorough bool, gt uint32) (*scenario, []CommitCase
 			}
 			r := do(Op{Kind: "block", Raw: k.Build(spec), Note: note})
 			sc.hist["block:"+kind]++
-			cases = append(cases, CommitCase{Note: note, Verdict: r.Verdict})
+			cc := CommitCase{Note: note, Verdict: r.Verdict, Early: -1, Nins: []int{0}}
+			for _, tx := range txs {
+				cc.Nins = append(cc.Nins, len(tx.TxIn))
+			}
+			cc.Bad = ge.lastBad
+			switch kind {
+			case "valid", "badsig":
+				cc.Model = true
+			case "dblspend", "unknown":
+				cc.Model = true
+				cc.Early = len(txs)
+			}
+			cases = append(cases, cc)
 		}
 		switch g.Intn(4) {
 		case 0, 1:
@@ -397,6 +415,8 @@ func genScenario(seed uint64, thorough bool, gt uint32) (*scenario, []CommitCase
 // ------------------------------------------------------------------------------------ replay
 
 func replay(sc *scenario, cfg Cfg, out *WorkerOut) {
+	t0 := time.Now()
+	defer func() { out.Timing = append(out.Timing, fmt.Sprintf("%s %.1fs", cfg.Name, time.Since(t0).Seconds())) }()
 	runtime.GOMAXPROCS(cfg.Procs)
 	utxo.UTXO_WRITING_TIME_TARGET = time.Duration(cfg.TargetU) * time.Microsecond
 	k, err := chainkit.New(chainkit.Opts{GenesisTime: sc.gt}, vlib.NewRng(1))
@@ -539,8 +559,8 @@ func directedResave(seed uint64, gt uint32, out *WorkerOut) {
 	rp := Replay{Cfg: Cfg{Name: "directed-resave", Procs: 4}}
 	k.Ch.Idle() // save #1 of tip N
 	waitSaved(k.Ch.Unspent)
-	for i := 0; i < 2000 && atomic.LoadInt32(&blocked) == 0; i++ {
-		time.Sleep(100 * time.Microsecond)
+	for t0 := time.Now(); time.Since(t0) < 400*time.Millisecond && atomic.LoadInt32(&blocked) == 0; {
+		time.Sleep(200 * time.Microsecond)
 	}
 	k.MustExtend(nil, 0)  // N+1
 	k.Ch.UndoLastBlock()  // back to N (what a failed reorg does)
@@ -548,8 +568,8 @@ func directedResave(seed uint64, gt uint32, out *WorkerOut) {
 	// save #2 of tip N uses the same temporary file name while file goroutine #1 is still alive.
 	closed := make(chan bool)
 	go func() { k.Ch.Close(); close(closed) }()
-	for i := 0; i < 20000 && atomic.LoadInt32(&renamed) == 0; i++ {
-		time.Sleep(100 * time.Microsecond)
+	for t0 := time.Now(); time.Since(t0) < 400*time.Millisecond && atomic.LoadInt32(&renamed) == 0; {
+		time.Sleep(200 * time.Microsecond)
 	}
 	rc.ev("h:release")
 	close(release)
@@ -592,10 +612,14 @@ func workerMain(args []string) {
 	gt := uint32(time.Now().Unix()) - 400*24*3600
 	gt -= gt % 600
 	if *only == "" || *only == "resave" {
+		t0 := time.Now()
 		directedResave(*seed, gt, out)
+		out.Timing = append(out.Timing, fmt.Sprintf("resave %.1fs", time.Since(t0).Seconds()))
 	}
 	if *only == "" || *only == "chain" {
+		t0 := time.Now()
 		sc, cases := genScenario(mix(*seed, uint64(*shard)+1), thorough, gt)
+		out.Timing = append(out.Timing, fmt.Sprintf("gen %.1fs", time.Since(t0).Seconds()))
 		out.Scenario = sc.name
 		out.Ref = sc.ref
 		out.Commit = cases
@@ -606,14 +630,17 @@ func workerMain(args []string) {
 			out.Hist[k] += v
 		}
 		g := vlib.NewRng(mix(*seed, 77+uint64(*shard)))
-		procs := []int{1, 2, 4, 8, 16}
-		n := 5
+		procs := []int{1, 4, 16}
+		if *shard%2 == 1 {
+			procs = []int{2, 8, 3}
+		}
+		n := 3
 		if thorough {
 			procs = []int{1, 2, 3, 4, 6, 8, 12, 16}
 			n = 16
 		}
 		for i := 0; i < n; i++ {
-			cfg := Cfg{Procs: procs[i%len(procs)], Perturb: g.U64() | 1, Aux: i%2 == 1 || i >= 4}
+			cfg := Cfg{Procs: procs[i%len(procs)], Perturb: g.U64() | 1, Aux: i%2 == 1 || i >= 4 || *shard%2 == 1}
 			cfg.TargetU = int64(g.Pick(0, 2000, 20000, 200000))
 			cfg.Name = fmt.Sprintf("r%d-p%d-t%d-aux%v", i, cfg.Procs, cfg.TargetU, cfg.Aux)
 			replay(sc, cfg, out)
